@@ -210,6 +210,11 @@ def in_chunk_time(F, R, rule='B.C06.in-chunk'):
                 # the index: the counter of an enumeration, or the item of a range that ends at a slice's length
                 idx_ok = ('Enumerate' in num and '::len(' not in num) or \
                     ('Range<A>>::next(' in num and 'std::ops::Range::Range(' in num and '::len(' in num.split('std::ops::Range::Range(', 1)[1])
+                # ... or the second half of a zip of the slice's iterator with `1..=len` / `0..len`
+                for ctor in ('std::ops::RangeInclusive::<Idx>::new(1, ', 'std::ops::Range::Range(0, '):
+                    if 'Zip<A, B> as std::iter::Iterator>::next(' in num and ctor in num and '::len(' in num.split(ctor, 1)[1] \
+                            and ('::iter_mut(' in num or '::iter(' in num):
+                        idx_ok = True
                 den_ok = den.startswith('core::slice::<impl [T]>::len(')
                 if '::{closure' in b.path and not (idx_ok and den_ok):
                     # a closure handed to `..enumerate().for_each(..)`: the index is the first half of its argument, the
@@ -336,11 +341,48 @@ def run(ctx, R, tier):
     # a request made before a sound's first callback is read in that callback: new sounds are picked up before they are polled
     from .c07 import first as polled_after_pickup
     polled_after_pickup(F, R)
+    # 'never jump': the gain stage that interpolates a volume across the chunk lies on every path of its mixing function (no
+    # shortcut on the chunk-end value, which skips the ramp of the chunk in which a tween arrives)
+    from .c02 import stages_every_path
+    stages_every_path(F, R, rule='B.C06.flow')
     accumulators(F, R)
     duration_interp(F, R)
+    interp_shapes(F, R)
     # 'with the built-in easings the value never leaves the interval': their powers stay inside their domain (A.singular)
     from ..enginea import run_singular_only
     run_singular_only(R, F, lambda fn: fn.startswith('tween::'), floor=2)
+
+
+def interp_shapes(F, R, rule='B.C06.interp'):
+    """'follows start + (target - start) x ease(elapsed / duration)': what Tweenable::interpolate returns for the scalar types
+    is the linear blend itself - `a + (b - a) * amount` for f32 / f64 / Vec3, and for the unit newtypes (Decibels, Mix, Panning,
+    PlaybackRate, Semitones) the blend of the two wrapped numbers as they are, rewrapped.  Endpoints are not clamped, rounded
+    or otherwise adjusted: a tween from below a limit starts below it."""
+    n = 0
+    for b in F.bodies:
+        if b.krate != 'kira' or not b.path.endswith(' as tween::tweenable::Tweenable>::interpolate'):
+            continue
+        ty = b.path[1:].split(' as ')[0]
+        rets = sorted(set(str(p.ret) for p in explore(b) if p.end == 'return'))
+        short = ty.split('::')[-1]
+        if ty in ('f32', 'f64'):
+            want = ['Add(Mul(Sub(b, a), amount), a)']
+        elif ty == 'glam::Vec3':
+            want = ['<glam::Vec3 as std::ops::Add>::add(a, <glam::Vec3 as std::ops::Mul<f32>>::mul(<glam::Vec3 as std::ops::Sub>::sub(b, a), amount))']
+        elif ty.startswith(('decibels::', 'mix::', 'panning::', 'playback_rate::', 'semitones::')):
+            want = None
+            # (the inner call resolved to the float's impl, or - through a generic helper shared by the newtypes - left generic)
+            for inner in ('<f32 as tween::tweenable::Tweenable>', '<f64 as tween::tweenable::Tweenable>', 'tween::tweenable::Tweenable'):
+                w = '%s::%s(%s::interpolate(a.0, b.0, amount))' % (ty, short, inner)
+                if rets == [w]:
+                    want = [w]
+            want = want or ['%s::%s(<f.. as Tweenable>::interpolate(a.0, b.0, amount))' % (ty, short)]
+        else:
+            continue    # ClockSpeed, Duration, Quat have rules of their own (speed_units, duration_interp) / are a library call
+        n += 1
+        R.check(rets == want, rule, short, 'Tweenable::interpolate for %s returns %s, not the plain blend %s of its two endpoints' % (ty, [r[:120] for r in rets], want[0]),
+                detail={'returns': rets[0][:160] if rets else None}, where=b.file, nontrivial=False)
+    R.floor(rule, n, 8)
 
 
 def cover(F, R):
